@@ -195,7 +195,21 @@ class Runner:
             out.append({"sk": kind, "root": root, "var": var if "name" in var else {"vk": vk, "name": ""},
                         "d": st["d"], "ev": events})
 
-        if vk == "none":
+        if vk == "long":
+            o, w = pad_long(o, w, var["path"], LONG_PAD)
+            evs = []
+            ev, obj = self.ev_structure(w, cls, root)
+            evs.append(ev)
+            if ev["ok"]:
+                self.round_trip_tail(evs, obj, cls, root)
+            session("parse", evs)
+            evs = []
+            ev, obj = self.ev_construct(o, root)
+            evs.append(ev)
+            if ev["ok"]:
+                self.round_trip_tail(evs, obj, cls, root)
+            session("ctor", evs)
+        elif vk == "none":
             evs = []
             ev, obj = self.ev_structure(w, cls, root)
             evs.append(ev)
@@ -303,6 +317,34 @@ class Runner:
         return {"sid": 1, "sk": sk, "root": root, "var": sess["var"], "d": sess.get("d", 0), "ev": out}
 
 
+LONG_PAD = int(os.environ.get("VERIF_LONG_PAD", "130"))
+
+
+def pad_long(o, w, path, n):
+    """The `long` variant of Codec.tla: n more copies of the first element in front of the array at `path`, on the
+    abstract object and on the wire form alike (inst: property name, arr / tup: index, map: key)."""
+    import copy
+    o, w = copy.deepcopy(o), copy.deepcopy(w)
+    on, wn = o, w
+    for step in pyside.seq(path):
+        k = on["k"]
+        if k == "inst":
+            on = pyside.fun(on["p"])[step]
+            wn = pyside.fun(wn["f"])[step]
+        elif k in ("arr", "tup"):
+            on = pyside.seq(on["a"])[int(step) - 1]
+            wn = pyside.seq(wn["a"])[int(step) - 1]
+        elif k == "map":
+            on = pyside.fun(on["f"])[step]
+            wn = pyside.fun(wn["f"])[step]
+        else:
+            raise ValueError("path does not lead to an array")
+    oa, wa = pyside.seq(on["a"]), pyside.seq(wn["a"])
+    on["a"] = [copy.deepcopy(oa[0]) for _ in range(n)] + list(oa)
+    wn["a"] = [copy.deepcopy(wa[0]) for _ in range(n)] + list(wa)
+    return o, w
+
+
 def scramble(obj, depth=0, seen=None):
     """Wreck a parsed object in place: every list gets a foreign element, every dict a foreign key, every attribute
     of every attrs instance that holds a container or instance is visited.  Returns the number of changes."""
@@ -377,7 +419,7 @@ CHUNK_BYTES = 8 * 1024 * 1024
 
 
 # what a replay needs to reproduce the process the session ran in
-RUN_ENV = {"cfg": os.environ.get("VERIF_CONV_CFG", "default"), "hs": os.environ.get("PYTHONHASHSEED", "0"), "O": os.environ.get("PYTHONOPTIMIZE", "")}
+RUN_ENV = {"cfg": os.environ.get("VERIF_CONV_CFG", "default"), "hs": os.environ.get("PYTHONHASHSEED", "0"), "O": os.environ.get("PYTHONOPTIMIZE", ""), "W": os.environ.get("PYTHONWARNINGS", "")}
 
 
 def main(argv):
